@@ -76,18 +76,17 @@ func tagPoolShort(e *env.Env, d, v int) {
 	b := e.Branch()
 	var coins sdk.Coins
 	var err error
-	if Caught(func() {
-		av := AV(b, Vals[v])
-		if _, err = b.K.ClaimValidatorRewards(b.Ctx, av); err != nil {
-			return
-		}
-		av = AV(b, Vals[v])
-		coins, _, err = b.K.CalculateDelegationRewards(b.Ctx, del, av, asset)
-	}) {
+	// region of a known finding: settling the VALIDATOR's pending rewards panics (division by a zero
+	// staked reward weight / zero token value in AddAssetsToRewardPool). Only that call defines the
+	// region; a panic while computing the delegation's own rewards is judged by the claim itself.
+	if Caught(func() { _, err = b.K.ClaimValidatorRewards(b.Ctx, AV(b, Vals[v])) }) {
 		nd.Tag("reward-settlement-panics")
 		return
 	}
 	if err != nil {
+		return
+	}
+	if Caught(func() { coins, _, err = b.K.CalculateDelegationRewards(b.Ctx, del, AV(b, Vals[v]), asset) }) || err != nil {
 		return
 	}
 	pool := b.Bank.Balance(b.Ak.GetModuleAddress(types.RewardsPoolName), env.BondDenom)
